@@ -18,7 +18,8 @@
    [all_shared_writes_locked] is the decidable condition "exactly one critical section, and every
    shared write and every read of a written location is inside it". *)
 From Coq Require Import List Permutation.
-From Regal Require Import Model.Sched Proofs.Sched Proofs.InputPaths Proofs.LinterShape.
+From Regal Require Import Model.Sched Model.BaseCache Proofs.Sched Proofs.InputPaths Proofs.LinterShape
+  Proofs.BaseCache.
 Import ListNotations.
 Local Open Scope nat_scope.
 
@@ -123,6 +124,30 @@ Theorem c01_input_schedule_independent :
   new_input (sh st1) = new_input (sh st2) /\ new_input (sh st1) = input_from_paths parse paths1.
 Proof. exact input_schedule_independent. Qed.
 Print Assumptions c01_input_schedule_independent.
+
+(* The process-wide base-document cache (internal/cache, Model/BaseCache.v; used when the language
+   server passes WithBaseCache): in any history of Puts that store the document's own
+   sub-documents and Gets - the cache's RWMutex makes every concurrent history such a sequence -
+   a Get answers nothing or exactly the document's value at the reference, whatever was put,
+   overwritten or dropped before.  So a shared cache cannot make one evaluation differ from
+   another. *)
+Theorem c01_basecache_coherent :
+  forall (doc : val) (ops : list op) (t : trie), coherent doc t ->
+  Forall2 (fun o a => match o, a with
+                      | OGet ref, Some r => vfind doc ref = Some r
+                      | _, _ => True
+                      end)
+          (filter (fun o => match o with OGet _ => true | OPut _ => false end) ops)
+          (replay doc t ops).
+Proof. exact basecache_coherent. Qed.
+Print Assumptions c01_basecache_coherent.
+
+Example c01_basecache_nonvacuous :
+  coherent (VObj [(1, VLeaf 7)]%N) empty_trie /\
+  replay (VObj [(1, VObj [(2, VLeaf 7); (3, VObj [(4, VLeaf 9)])])]%N) empty_trie
+         [OGet [1;2]; OPut [1;3]; OGet [1;3;4]; OGet [1;2]; OPut [1]; OGet [1;2]; OGet [1;5]]%N =
+  [None; Some (VLeaf 9); None; Some (VLeaf 7); None]%N.
+Proof. split; [apply coherent_empty | exact basecache_example]. Qed.
 
 (* Non-vacuity: a complete interleaved execution of two workers exists (worker 1 wins the lock),
    and the reference program satisfies the side conditions. *)
